@@ -79,7 +79,7 @@ PROFILES = {
     "C16": profile(usage_p=1.0, blur=[1, 7, 60, 61, 100, 900, 3600, 86400],
                    w={"close": 8, "release": 7, "persona": 3, "adv_long": 1.5, "adv_sweep": 2, "adv_small": 6}),
     "C17": profile(unicode_p=0.5, welcome_p=0.7, share_ids_p=0.05, big_p=0.01,
-                   w={"bad": 14, "connect_unbound": 2, "ping": 2, "third": 1, "list": 5}),
+                   w={"bad": 14, "connect_unbound": 2, "ping": 2, "third": 1, "list": 5, "reuse": 1.5}),
     "C10": profile(steps=(6, 22), usage_p=0.6, nsides=(2, 3), names=3, autoping_p=0.1, hold_p=0.0,
                    w={"claim": 9, "release": 7, "close": 8, "open": 7, "add": 5, "adv_sweep": 1.5, "adv_long": 1.0,
                       "restart": 0.3, "kill": 0.3, "persona": 2.5, "third": 0.8, "bad": 0.2, "stall": 0, "idle_sub": 1.5}),
@@ -561,6 +561,13 @@ class Gen(object):
         for c in newc:
             out += self.a_add(c)
         out += self.a_add(a1)
+        x = r.random()
+        if x < 0.3:
+            # the lingering connection names something it never opened
+            out.append({"op": "send", "c": a1.id, "m": {"type": "close", "mailbox": r.choice(["", "other-" + self.uniq("x")])}})
+            out.append({"op": "send", "c": a1.id, "m": {"type": "ping", "ping": self.counter}})
+        elif x < 0.6:
+            out += self.a_close(a1)
         return out
 
     def a_third(self):
